@@ -3,6 +3,7 @@ package main
 import (
 	"os"
 	"strings"
+	"sync"
 )
 
 // Cone-of-influence slicing of the per-obligation script (phase 2 of Solve).
@@ -64,36 +65,86 @@ type sliceLine struct {
 	syms []string
 }
 
-func sliceLines(lines []string, query string) []string {
-	if os.Getenv("GCV_NOSLICE") != "" {
-		return lines
+// sliceIndex is the parsed form of a script's lines (computed once per script; slicing a function with many forgetting
+// cuts asks for one cone per segment).
+type sliceIndex struct {
+	n        int
+	first    string
+	infos    []sliceLine
+	defIdx   map[string]int
+	declared map[string]bool
+	bySym    map[string][]int // non-connector declared symbol -> assert lines mentioning it
+	always   []int            // assert lines with only prelude/connector symbols
+}
+
+var sliceCache struct {
+	idx *sliceIndex
+}
+
+func buildSliceIndex(lines []string) *sliceIndex {
+	if c := sliceCache.idx; c != nil && c.n == len(lines) && len(lines) > 0 && c.first == lines[len(lines)-1] {
+		return c
 	}
-	infos := make([]sliceLine, len(lines))
-	defIdx := map[string]int{}
-	declared := map[string]bool{}
+	ix := &sliceIndex{n: len(lines), infos: make([]sliceLine, len(lines)), defIdx: map[string]int{}, declared: map[string]bool{}, bySym: map[string][]int{}}
+	if len(lines) > 0 {
+		ix.first = lines[len(lines)-1]
+	}
 	for i, l := range lines {
 		t := strings.TrimSpace(l)
 		switch {
 		case strings.HasPrefix(t, "(define-fun "):
 			sy := smtSymbols(t)
 			if len(sy) >= 2 {
-				infos[i] = sliceLine{"def", sy[1], sy[2:]}
-				defIdx[sy[1]] = i
-				declared[sy[1]] = true
+				ix.infos[i] = sliceLine{"def", sy[1], sy[2:]}
+				ix.defIdx[sy[1]] = i
+				ix.declared[sy[1]] = true
 			}
 		case strings.HasPrefix(t, "(declare-fun ") || strings.HasPrefix(t, "(declare-const "):
 			sy := smtSymbols(t)
 			if len(sy) >= 2 {
-				infos[i] = sliceLine{"decl", sy[1], nil}
-				declared[sy[1]] = true
+				ix.infos[i] = sliceLine{"decl", sy[1], nil}
+				ix.declared[sy[1]] = true
 			}
 		case strings.HasPrefix(t, "(assert "):
-			infos[i] = sliceLine{"assert", "", smtSymbols(t)}
+			ix.infos[i] = sliceLine{"assert", "", smtSymbols(t)}
 		default:
-			infos[i] = sliceLine{kind: "other"}
+			ix.infos[i] = sliceLine{kind: "other"}
 		}
 	}
+	for i := range ix.infos {
+		if ix.infos[i].kind != "assert" {
+			continue
+		}
+		nonConn := false
+		seen := map[string]bool{}
+		for _, s := range ix.infos[i].syms {
+			if !ix.declared[s] || isConnector(s) || seen[s] {
+				continue
+			}
+			seen[s] = true
+			nonConn = true
+			ix.bySym[s] = append(ix.bySym[s], i)
+		}
+		if !nonConn {
+			ix.always = append(ix.always, i)
+		}
+	}
+	return ix
+}
+
+var sliceMu sync.Mutex
+
+func sliceLines(lines []string, query string) []string {
+	if os.Getenv("GCV_NOSLICE") != "" {
+		return lines
+	}
+	sliceMu.Lock()
+	ix := buildSliceIndex(lines)
+	sliceCache.idx = ix
+	sliceMu.Unlock()
+	infos, defIdx, declared := ix.infos, ix.defIdx, ix.declared
 	cone := map[string]bool{}
+	keep := make([]bool, len(lines))
 	var work []string
 	add := func(s string) {
 		if declared[s] && !cone[s] {
@@ -101,50 +152,34 @@ func sliceLines(lines []string, query string) []string {
 			work = append(work, s)
 		}
 	}
-	closeDefs := func() {
-		for len(work) > 0 {
-			s := work[len(work)-1]
-			work = work[:len(work)-1]
-			if i, ok := defIdx[s]; ok {
-				for _, d := range infos[i].syms {
-					add(d)
-				}
-			}
+	for _, i := range ix.always {
+		keep[i] = true // only prelude/connector symbols: allocation ordering, path facts (cheap, always kept)
+		for _, s := range infos[i].syms {
+			add(s)
 		}
 	}
 	for _, s := range smtSymbols(query) {
 		add(s)
 	}
-	closeDefs()
-	keep := make([]bool, len(lines))
-	for changed := true; changed; {
-		changed = false
-		for i := range infos {
-			if infos[i].kind != "assert" || keep[i] {
+	// closure: definitions of cone symbols, and every assertion that mentions a non-connector cone symbol
+	for len(work) > 0 {
+		s := work[len(work)-1]
+		work = work[:len(work)-1]
+		if i, ok := defIdx[s]; ok {
+			for _, d := range infos[i].syms {
+				add(d)
+			}
+		}
+		if isConnector(s) {
+			continue
+		}
+		for _, i := range ix.bySym[s] {
+			if keep[i] {
 				continue
 			}
-			rel := false
-			nonConn := false
-			for _, s := range infos[i].syms {
-				if !declared[s] || isConnector(s) {
-					continue
-				}
-				nonConn = true
-				if cone[s] {
-					rel = true
-					break
-				}
-			}
-			if !nonConn {
-				rel = true // only prelude/connector symbols: allocation ordering, path facts (cheap, always kept)
-			}
-			if rel {
-				keep[i] = true
-				changed = true
-				for _, s := range infos[i].syms {
-					add(s)
-				}
-				closeDefs()
+			keep[i] = true
+			for _, d := range infos[i].syms {
+				add(d)
 			}
 		}
 	}
